@@ -354,7 +354,11 @@ func c10Multiget(c *Ctx, pr *PropertyRun) {
 	p := c.P
 	r := NewRule("C10", "C10.multiget", "multiget answers every requested href exactly once, in order, with the object or with the backend's own error status; NewErrorResponse carries the status (E2)")
 	r.Exhaustive = true
-	r.Bounds = "hrefs <= 2, each found or failing"
+	nHrefs := 2
+	if c.Thorough() {
+		nHrefs = 4
+	}
+	r.Bounds = fmt.Sprintf("hrefs <= %d, each found or failing", nHrefs)
 	pr.Rules = append(pr.Rules, r)
 	for _, pkg := range []string{pkgCaldav, pkgCarddav} {
 		dn := davNamesOf(pkg)
@@ -375,7 +379,7 @@ func c10Multiget(c *Ctx, pr *PropertyRun) {
 		spec := DTXSpec{Name: dn.short + " multiget", Entry: handler,
 			Sym: SymSpec{NonNil: func(k string) bool { return !strings.HasSuffix(k, ".Prop") }, MaxLen: func(key string, _ types.Type) int {
 				if strings.HasSuffix(key, ".Hrefs") {
-					return 2
+					return nHrefs
 				}
 				return 0
 			}, IntDomain: func(string) []int64 { return []int64{0, 7} },
@@ -450,7 +454,7 @@ func c10Multiget(c *Ctx, pr *PropertyRun) {
 				return strings.Join(seq, " ") + " => " + boolErrNil(res)
 			},
 			Oracle: func(env *OracleEnv) ([]string, bool) {
-				n := env.Len("multiget.Hrefs", 2)
+				n := env.Len("multiget.Hrefs", nHrefs)
 				var built, final []string
 				for i := 0; i < n; i++ {
 					k := fmt.Sprintf("multiget.Hrefs[%d].Path", i)
